@@ -163,6 +163,9 @@ impl<'a> B<'a> {
         self.id += 1;
         if self.dev("salt-nonstring") {
             json!(self.id)
+        } else if self.r.chance(3) {
+            // salts are any strings: empty, one character, blanks, not base64url at all
+            json!(*self.r.pick(&["", "A", " ", "=", "\u{e9}", "AAAA"]))
         } else {
             json!(format!("salt{}", self.id))
         }
